@@ -130,6 +130,10 @@ class StateMachineMatcher:
                                 raise SlashRequired()
                             else:
                                 return rule, result
+                        elif not rule.strict_slashes and rule.methods is not None:
+                            # Without strict slashes the rule matches this
+                            # path too, only not for this method.
+                            have_match_for.update(rule.methods)
                 return None
 
             part = parts[0]
